@@ -100,7 +100,17 @@ def prove_identity(lhs, rhs, assumptions=None, seed=0):
     # numeric cross-check
     rng = random.Random(seed)
     mpmath.mp.dps = 50
+    # tensor entries such as x1(i, 0) are applications of uninterpreted functions: independent atoms for the numeric cross-check
+    from sympy.core.function import AppliedUndef
+    apps = sorted(d.atoms(AppliedUndef), key=str)
+    rep = {a_: sp.Symbol(f"atom{k_}", real=True) for k_, a_ in enumerate(apps)}
+    d = d.xreplace(rep)
+    syms = {**{str(a_): v_ for a_, v_ in rep.items()}, **{n_: sy_ for n_, sy_ in syms.items() if sy_ in d.free_symbols}}
+    for sy_ in d.free_symbols:
+        if sy_ not in syms.values():
+            syms[str(sy_)] = sy_
     f = sp.lambdify(list(syms.values()), d, "mpmath")
+    evaluated = 0
     for _ in range(20):
         vals = []
         for n, sy in syms.items():
@@ -113,6 +123,50 @@ def prove_identity(lhs, rhs, assumptions=None, seed=0):
             v = f(*vals)
         except Exception:
             continue
+        evaluated += 1
         if abs(v) > mpmath.mpf(10) ** -30:
             return False, f"numeric cross-check failed at {vals}: {v}"
-    return True, "sympy.simplify(lhs - rhs) == 0, numeric cross-check passed"
+    return True, f"sympy.simplify(lhs - rhs) == 0, numeric cross-check passed at {evaluated} sampled valuations"
+
+
+def refute_identity(lhs, rhs, assumptions=None, seed=0, tries=12):
+    """numeric witness that lhs != rhs: a valuation (all atoms positive, in (0.3, 2)) at which the two sides differ by more than 1e-6 relative; None if none is found.
+    Only a hint -- the caller replays on the real code before anything is reported."""
+    import sympy as sp
+    import mpmath
+
+    syms = {}
+    try:
+        d = to_sympy(z3.simplify(lhs), syms, assumptions or {}) - to_sympy(z3.simplify(rhs), syms, assumptions or {})
+        r = to_sympy(z3.simplify(rhs), dict(syms), assumptions or {})
+    except (ValueError, z3.Z3Exception):
+        return None
+    rng = random.Random(seed + 17)
+    mpmath.mp.dps = 30
+    # applications of uninterpreted functions (tensor entries such as x1(i, 0)) are independent atoms: one fresh symbol each
+    from sympy.core.function import AppliedUndef
+    apps = sorted(set(d.atoms(AppliedUndef)) | set(r.atoms(AppliedUndef)), key=str)
+    rep = {a_: sp.Symbol(f"atom{k_}", real=True) for k_, a_ in enumerate(apps)}
+    d, r = d.xreplace(rep), r.xreplace(rep)
+    names = {str(a_): v_ for a_, v_ in rep.items()}
+    free = sorted(set(d.free_symbols) | set(r.free_symbols), key=str)
+    try:
+        f = sp.lambdify(free, [d, r], "mpmath")
+    except Exception:
+        return None
+    back = {v_: k_ for k_, v_ in names.items()}
+    syms = {back.get(sy, str(sy)): sy for sy in free}
+    hits = 0
+    first = None
+    for _ in range(tries):
+        vals = [mpmath.mpf(rng.uniform(0.3, 2.0)) for _ in syms]
+        try:
+            dv, rv = f(*vals)
+        except Exception:
+            continue
+        if abs(dv) > mpmath.mpf("1e-6") * (1 + abs(rv)):
+            hits += 1
+            if first is None:
+                first = {str(n): float(v) for n, v in zip(syms.keys(), vals)}
+                first["__difference__"] = float(dv)
+    return first if hits >= max(2, tries // 3) else None
